@@ -88,6 +88,39 @@ def handle (j : Json) : Except String Json := do
     let xi : String → Float := fun _ => 0.0
     pure (Json.mkObj [("values", jFloats (rows.map fun row => evalI betas row xi d)),
       ("f", jFloats (rows.map fun row => evalI betas row xi e))])
+  | "derive_lit" =>
+    -- Derive(e, name) through the global numbering of the id manager and the engine's literal ids
+    let free ← strList (← j.getObjVal? "free")
+    let fixed ← strList (← j.getObjVal? "fixed")
+    let rvs ← strList (← j.getObjVal? "rvs")
+    let draws ← strList (← j.getObjVal? "draws")
+    let cols ← strList (← j.getObjVal? "cols")
+    let bnames ← strList (← j.getObjVal? "bnames")
+    let vnames ← strList (← j.getObjVal? "vnames")
+    let name ← getStr j "name"
+    let all := allLiterals free fixed rvs draws cols
+    let idx := literalIndex all name
+    if !(← getBool j "eval") then
+      pure (Json.mkObj [("index", jNat idx), ("count", jNat all.length)])
+    else
+      let betas ← floatList (← j.getObjVal? "betas")
+      let rows ← floatMat (← j.getObjVal? "rows")
+      let e ← parseI (← j.getObjVal? "e")
+      let d := deriveNamed all (fun i => bnames.getD i "\x00") (fun k => vnames.getD k "\x00") name e
+      let mc ← getBool j "mc"
+      if mc then
+        let table ← (← getArr j "table").toList.mapM floatMat
+        let R ← getNat j "R"
+        if R = 0 then throw "bad-op"
+        let vals := rows.zipIdx.map fun (row, n) => monteCarlo draws table betas row n R d
+        pure (Json.mkObj [("index", jNat idx), ("count", jNat all.length), ("values", jFloats vals)])
+      else
+        let xi : String → Float := fun _ => 0.0
+        pure (Json.mkObj [("index", jNat idx), ("count", jNat all.length),
+          ("values", jFloats (rows.map fun row => evalI betas row xi d))])
+  | "seed_policy" =>
+    let seed ← getNat j "seed"
+    pure (Json.mkObj [("state", jStr (seedPolicy (fun s => s!"fresh:{s}") seed "current"))])
   | _ => throw "bad-op"
 
 def main : IO Unit := Drv.run handle
